@@ -126,6 +126,8 @@ where
     N: NumberTracker + ?Sized,
 {
     for &idx in prio_indices {
+        #[cfg(exmex_verif)]
+        crate::verif::point(crate::verif::Site::EvalStep);
         let shift_left = tracker.get_previous(idx);
         let shift_right = tracker.consume_next(idx);
 
